@@ -239,6 +239,24 @@ def run_generic(key):
         bad = tol.mismatch(irm, ref, 1e-12, what='ideal_ratio_mask')
         if bad:
             return viol(bad)
+    # single-precision input: the eps-guarded masks stay finite (silent points included) and agree with the
+    # double-precision result at single-precision accuracy
+    x32 = x.astype(np.complex64)
+    x32.setflags(write=False)
+    fns = [('wiener_like_mask', dict(source_axis=s, sensor_axis=d))]
+    if d is None:
+        fns += [(n_, dict(source_axis=s)) for n_ in ('ideal_ratio_mask', 'ideal_amplitude_mask', 'phase_sensitive_mask')]
+    for name, kw in fns:
+        try:
+            a32 = np.asarray(getattr(mm, name)(x32, **kw))
+            a64 = np.asarray(getattr(mm, name)(x32.astype(np.complex128), **kw))
+        except Exception as e:  # noqa
+            return viol(f'{name} raised {e!r} for complex64 input')
+        if not np.isfinite(a32).all():
+            return viol(f'{name}: non-finite values for complex64 input ({int((~np.isfinite(a32)).sum())} points, '
+                        f'silent points: {bool(key["silent"])})')
+        if np.abs(a32 - a64).max(initial=0) > 1e-3 * (1 + np.abs(a64).max(initial=0)):
+            return viol(f'{name}: complex64 input deviates {np.abs(a32 - a64).max():.2e} from the double-precision result')
     return ok(outcome=str(outs))
 
 
